@@ -789,7 +789,7 @@ pub fn c10_item(sh: &StreamShared, k: u64, acc: &mut Acc, note: &dyn Fn(&str)) {
 pub fn run_c10(opt: &Options) -> i32 {
     let t0 = std::time::Instant::now();
     let (models, per) = if opt.thorough() {
-        (opt.scaled(1_500_000), 24u64)
+        (opt.scaled(6_000_000), 24u64)
     } else {
         (opt.scaled(200_000), 8u64)
     };
